@@ -360,6 +360,10 @@ type Prop[C any] struct {
 // Run drives p with rapid for n cases and records results in r.
 func Run[C any](t *testing.T, r *Rec, p Prop[C], n int) {
 	t.Helper()
+	if r.Violations() > 0 && os.Getenv("VERIF_KEEP_GOING") == "" {
+		t.Skip("a violation was already recorded in this run")
+	}
+	defer r.Flush() // keep what was found even if a later test hangs into the watchdog
 	flag.Set("rapid.checks", strconv.Itoa(n))
 	flag.Set("rapid.seed", strconv.FormatUint(RapidSeed(p.Kind), 10))
 	flag.Set("rapid.nofailfile", "true")
